@@ -21,6 +21,7 @@ from typing import Any
 from . import core
 
 EXIT_OK, EXIT_VIOLATION, EXIT_HARNESS, EXIT_NONDET = 0, 1, 2, 3
+REPLAY_SUBDIR = ""
 
 
 def loadMachine(prop: str) -> type:
@@ -75,12 +76,10 @@ def _runChunk(args: tuple) -> dict:
             out["skippedRuns"] += 1
             continue
         seedI = core.deriveSeed(prop, baseSeed, index)
-        cfgRng = core.stream(seedI, "cfg")
-        faulthandler.dump_traceback_later(perRunTimeout * 3 + 60, exit=True)
         try:
-            with core.runTimeLimit(perRunTimeout):
-                cfg = machineCls.drawConfig(cfgRng, tier)
-                res = core.executeHistory(machineCls, cfg, None, seedI, knownKeys)
+            res, shared = core.runIsolated(_oneRun, (prop, seedI, tier, knownKeys),
+                                           perRunTimeout)
+            _importShared(machineCls, shared)
         except core.RunTimeout as exc:
             out["harnessErrors"].append(
                 {"index": index, "seedI": seedI, "error": f"TIMEOUT {exc}"})
@@ -89,8 +88,6 @@ def _runChunk(args: tuple) -> dict:
             out["harnessErrors"].append(
                 {"index": index, "seedI": seedI, "error": core.formatException(exc)})
             continue
-        finally:
-            faulthandler.cancel_dump_traceback_later()
         out["runs"] += 1
         out["steps"] += len(res.steps)
         out["digests"][index] = res.digest
@@ -124,12 +121,45 @@ def _runChunk(args: tuple) -> dict:
     return out
 
 
-def _minimiseTask(args: tuple) -> dict:
-    prop, cfg, steps, seedI, key, budget = args
+def _oneRun(prop: str, seedI: int, tier: str, knownKeys: frozenset) -> tuple:
+    """executed in a forked child: one history, generated from its seed"""
     machineCls = loadMachine(prop)
+    cfg = machineCls.drawConfig(core.stream(seedI, "cfg"), tier)
+    res = core.executeHistory(machineCls, cfg, None, seedI, knownKeys)
+    return res, _exportShared(machineCls)
+
+
+def _replayRun(prop: str, cfg: dict, steps: list, seedI: int) -> tuple:
+    machineCls = loadMachine(prop)
+    res = core.executeHistory(machineCls, cfg, steps, seedI)
+    return res, _exportShared(machineCls)
+
+
+def _exportShared(machineCls: type) -> Any:
+    fn = getattr(machineCls, "exportShared", None)
+    return fn() if fn else None
+
+
+def _importShared(machineCls: type, shared: Any) -> None:
+    fn = getattr(machineCls, "importShared", None)
+    if fn and shared:
+        fn(shared)
+
+
+def _minimiseTask(args: tuple) -> dict:
+    prop, cfg, steps, seedI, key, budget, perRunTimeout = args
+    machineCls = loadMachine(prop)
+
+    def runner(c: dict, s: list) -> Any:
+        # every candidate in its own process: state of the system under test
+        # cannot leak from one candidate into the next
+        res, shared = core.runIsolated(_replayRun, (prop, c, s, seedI), perRunTimeout)
+        _importShared(machineCls, shared)
+        return res
+
     cfg2, steps2, converged, used = core.minimise(
-        machineCls, cfg, steps, seedI, key, budget)
-    res = core.executeHistory(machineCls, cfg2, steps2, seedI)
+        machineCls, cfg, steps, seedI, key, budget, runner=runner)
+    res = runner(cfg2, steps2)
     return {"cfg": cfg2, "steps": steps2, "converged": converged, "replays": used,
             "violation": res.violation, "digest": res.digest, "events": res.events}
 
@@ -323,7 +353,8 @@ def _reportViolation(prop: str, tier: str, baseSeed: int, key: str, v: dict,
     mini = None
     try:
         with cf.ProcessPoolExecutor(max_workers=1, mp_context=ctxmp) as pool:
-            fut = pool.submit(_minimiseTask, (prop, v["cfg"], v["steps"], v["seedI"], key, budget))
+            fut = pool.submit(_minimiseTask, (prop, v["cfg"], v["steps"], v["seedI"], key,
+                                              budget, TIERS[prop][tier][2]))
             mini = fut.result(timeout=timeout)
     except Exception as exc:  # pylint: disable=broad-except
         print(f"NOTE minimisation failed ({type(exc).__name__}: {exc}); reporting unminimised history")
@@ -331,7 +362,7 @@ def _reportViolation(prop: str, tier: str, baseSeed: int, key: str, v: dict,
         mini = {"cfg": v["cfg"], "steps": v["steps"], "converged": False, "replays": 0,
                 "violation": v["violation"], "digest": v["digest"], "events": []}
     keyHash = hashlib.sha256(key.encode()).hexdigest()[:10]
-    outDir = os.path.join(core.VERIF_ROOT, "replays", prop)
+    outDir = os.path.join(core.VERIF_ROOT, "replays", REPLAY_SUBDIR, prop)
     os.makedirs(outDir, exist_ok=True)
     path = os.path.join(outDir, f"{keyHash}-{v['seedI']:016x}.json")
     data = {
